@@ -1,13 +1,18 @@
 """C05 — bit-reproducibility: the same seeded history repeated under a fixed
 thread count must produce bit-identical graphs, generator states, search
 structures and query answers after every step; repeating a query returns the
-same answer; earlier queries never influence later ones."""
-import sys, os, hashlib
+same answer; earlier queries never influence later ones.
+
+Tie of the schedule theorem to the code: the ownership classes that translate_prange.py assigns (Gen/Prange.lean) are
+validated on every run by harness/footprint_trace.py — a child process that runs the library in interpreter mode
+(NUMBA_DISABLE_JIT) and records, per prange iteration, every element read and written (see footprint_verdict below)."""
+import sys, os, hashlib, json
 sys.path.insert(0, os.path.dirname(os.path.dirname(os.path.abspath(__file__))))
 from harness.common import *
 setup_numba_cache()
 import numpy as np, numba, scipy.sparse as sp
 from pynndescent import NNDescent
+from harness import footprint_trace as fpt
 
 
 def H(*arrs):
@@ -143,24 +148,154 @@ def check_cfg(res, cfg, reps):
         res.violation("repro:%s:query-influence" % key, "answer to batch 2 depends on whether batch 1 was queried before", {"cfg": cfg})
 
 
+def cfg_from_scenario(sc, threads, i):
+    """a full-size history with the features of the (tiny) interpreter-mode scenario in which the recorder saw a conflict"""
+    kind = sc["kind"] if sc else ("dense" if i % 2 == 0 else "sparse")
+    return {"kind": kind, "n": 1500, "dim": 8 if kind == "dense" else 30, "k": 10, "seed": int(sc["seed"]) if sc else 7 + i,
+            "data_seed": int(sc["data_seed"]) if sc else 1000 + i, "low_memory": bool(sc["low_memory"]) if sc else bool(i % 2),
+            "dprob": 0.5, "pbq": bool(sc["pbq"]) if sc else True, "tree_init": bool(sc["tree_init"]) if sc else True,
+            "threads": threads, "nq": 400, "nu": 100, "qk": 10, "eps": 0.1, "update": kind == "dense",
+            "ties": bool(sc["ties"]) if sc else False, "n_jobs": None, "metric": sc["metric"] if sc else "euclidean"}
+
+
+def footprint_verdict(res, handles, tier, seed):
+    """Compare what the interpreter-mode recorder saw with the generated table Gen/Prange.lean.
+    A recorder that did not run (crash, timeout, failed self-test) is a note, never a finding."""
+    h, hp = handles
+    budget = 150 if tier == "quick" else 900
+    doc, why = (None, "the tracer process could not be started: %s" % h["error"]) if "error" in h else fpt.collect(h, budget)
+    plain, _why2 = (None, None) if "error" in hp else fpt.collect(hp, 30)
+    if doc is None:
+        res.notes.append("dynamic footprint validation did not run: %s" % why)
+        res.count("footprint:not-run")
+        return
+    if not doc.get("selftest", {}).get("ok"):
+        res.notes.append("dynamic footprint validation did not run: the recorder's self-test (synthetic racy / owned prange loops) failed: %s"
+                         % json.dumps(doc.get("selftest"))[:600])
+        res.count("footprint:not-run")
+        return
+    for e in doc.get("errors", []):
+        res.notes.append("dynamic footprint validation incomplete: %s" % (json.dumps(e)[:700]))
+        res.count("footprint:scenario-error")
+    try:
+        static = fpt.static_table()
+    except Exception as e:  # noqa
+        res.notes.append("dynamic footprint validation did not run: Gen/Prange.lean unreadable: %s" % e)
+        res.count("footprint:not-run")
+        return
+    seen = sorted(doc.get("enumerated", []))
+    if seen != sorted(static):
+        # the table the Lean obligation is decided over and the loops of the running library are not the same set
+        res.corr_fail("footprint:enumeration", {"library": doc.get("library")}, sorted(static), seen)
+    loops = doc["loops"]
+    index_loops = sorted(n for n, v in static.items() if v["scope"] == "index")
+    exercised = [n for n in index_loops if loops.get(n, {}).get("tracked_executions", 0) > 0 and loops[n]["iterations"] > 0]
+    serial_only = [n for n in index_loops if n not in exercised and loops.get(n, {}).get("executions", 0) > 0]
+    not_reached = [n for n in index_loops if n not in exercised and n not in serial_only]
+    tot = {k: sum(loops[n][k] for n in loops) for k in ("tracked_executions", "iterations", "reads", "writes", "elements")}
+    res.count("footprint:index-loops-in-table", len(index_loops))
+    res.count("footprint:index-loops-exercised", len(exercised))
+    res.count("footprint:index-loops-not-reached", len(not_reached) + len(serial_only))
+    res.count("footprint:loop-executions-recorded", tot["tracked_executions"])
+    res.count("footprint:iterations-recorded", tot["iterations"])
+    res.count("footprint:element-reads-recorded", tot["reads"])
+    res.count("footprint:element-writes-recorded", tot["writes"])
+    res.count("footprint:scenarios", len(doc.get("scenarios", [])))
+    for n in exercised:
+        res.count("footprint:iterations:" + n, loops[n]["iterations"])
+    other = sorted(n for n in loops if n not in index_loops and loops[n]["tracked_executions"] > 0)
+    res.notes.append(
+        "dynamic footprint validation (interpreter mode, %s, %d tiny scenarios + init_graph/score_tree extras, child wall %.1f s, "
+        "caller blocked %.1f s): %d/%d index loops of Gen/Prange.lean exercised, %d loop executions, %d iterations, %d element reads, "
+        "%d element writes over %d distinct elements; arrays recorded per loop: %s; closure-captured arrays recorded: %s; "
+        "NOT reached: %s; reached only with parallel=False (serial in the library too, nothing to check): %s; "
+        "also exercised outside the index scope: %s; recorder self-test: %d synthetic loops ok"
+        % (doc.get("library"), len(doc.get("scenarios", [])), doc.get("wall_s", -1), doc.get("blocked_s", -1), len(exercised),
+           len(index_loops), tot["tracked_executions"], tot["iterations"], tot["reads"], tot["writes"], tot["elements"],
+           {n: loops[n]["arrays"] for n in exercised}, doc.get("closure_arrays"), not_reached or "none", serial_only or "none",
+           other or "none", len(doc["selftest"].get("cases", {}))))
+    if plain is not None and plain.get("results_digest") and not doc.get("errors") and not plain.get("errors"):
+        if plain["results_digest"] == doc.get("results_digest"):
+            res.count("footprint:recorder-transparent")
+        else:
+            res.notes.append("dynamic footprint validation: the recorded run and a plain interpreter-mode run of the same scenarios "
+                             "computed different results (%s vs %s): the recorder changes the computation, its verdicts are suspect"
+                             % (doc.get("results_digest"), plain["results_digest"]))
+            res.count("footprint:recorder-not-transparent")
+    # ---- verdicts against the static table
+    bad_scen = []
+    for c in doc.get("conflicts", []):
+        st = static.get(c["loop"])
+        what = ("%s conflict on %s%s (shape %s) between iterations %s of %s; %d conflicting (element, iteration pair)s in that loop "
+                "execution; scenario %s" % (c["kind"], c["array"], c["element"], c.get("shape"), c["iterations"], c["loop"],
+                                            c["n_conflicting_pairs_in_this_execution"], c["scenario"]))
+        if st is None:
+            continue
+        if not st["noninterfering"]:
+            res.count("footprint:conflict-agrees-with-static-interfering:" + c["loop"])
+            continue
+        sid = (c.get("cfg") or {}).get("id", "x")
+        case = {"loop": c["loop"], "array": c["array"], "element": c["element"], "iterations": c["iterations"], "kind": c["kind"],
+                "scenario": c["scenario"], "scenario_cfg": c.get("cfg"), "static_classes": sorted(set(st["classes"])),
+                "replay": "cd %s && PYNN_REPO=%s %s -m harness.footprint_trace --seed %d --tier %s --only %s --out .cache/footprint/replay.json "
+                          "&& cat .cache/footprint/replay.json" % (VERIF, REPO, sys.executable, seed, tier, sid)}
+        res.corr_fail("footprint:" + c["loop"], case, "owned", what)
+        if c.get("cfg") not in bad_scen:
+            bad_scen.append(c.get("cfg"))
+    agree = sorted(n for n in loops if loops[n]["conflicts"] and n in static and not static[n]["noninterfering"])
+    if agree:
+        res.notes.append("dynamic footprint validation: conflicts recorded in loops the static table already classifies as interfering "
+                         "(the table and the running code agree): %s" % {n: loops[n]["conflicts"] for n in agree})
+    if bad_scen:
+        # the generated model says `owned`, the running code shares a location between iterations: evaluate the property
+        # predicate itself on full-size histories with the features of the offending scenarios, more repetitions, several thread counts
+        maxt = numba.config.NUMBA_NUM_THREADS
+        for i, sc in enumerate(bad_scen[:2]):
+            for t in sorted({min(4, maxt), maxt}):
+                check_cfg(res, cfg_from_scenario(sc, t, i), 8 if tier == "quick" else 16)
+        numba.set_num_threads(maxt)
+
+
 def run(res, tier, seed, search):
     rng = np.random.default_rng(seed + 77)
     res.rule = ("seeded histories build->prepare->query x2->query->[update->prepare->query] repeated R times in-process under a fixed "
                 "thread count, SHA-1 of graph / rng_state / search_rng_state / search graph / vertex order / answers compared after "
                 "every step; plus query-repeat and query-independence; non-trivial = >=2 threads and (diversify_prob<1 or parallel "
-                "batch queries or n>=1500)")
+                "batch queries or n>=1500); plus, in a child process, the interpreter-mode footprint recorder that checks the "
+                "ownership classes of Gen/Prange.lean against every element access of every prange iteration on tiny inputs")
+    # the recorder needs NUMBA_DISABLE_JIT and therefore its own process; it overlaps with the JIT-bound work below
+    handles = []
+    for plain in (False, True):
+        try:
+            handles.append(fpt.start(seed, tier, plain=plain))
+        except Exception as e:  # noqa
+            handles.append({"error": "%s: %s" % (type(e).__name__, e)})
     ncfg, reps = (6, 4) if tier == "quick" else (24, 8)
     if search:
         ncfg, reps = ncfg * 2, reps * 2
     maxt = numba.config.NUMBA_NUM_THREADS
-    for i in range(ncfg):
-        check_cfg(res, gen_cfg(rng, tier, i), reps)
-    numba.set_num_threads(maxt)
+    try:
+        for i in range(ncfg):
+            check_cfg(res, gen_cfg(rng, tier, i), reps)
+        numba.set_num_threads(maxt)
+    finally:
+        footprint_verdict(res, handles, tier, seed)
 
 
 def replay(res, doc):
     for c in doc.get("cases", []):
-        check_cfg(res, c["case"]["cfg"], 8)
+        if isinstance(c.get("case"), dict) and "cfg" in c["case"]:
+            check_cfg(res, c["case"]["cfg"], 8)
+    # recorded ownership conflicts: re-run the recorder on the scenarios that showed them
+    ids = sorted({(c["case"].get("scenario_cfg") or {}).get("id", "x") for c in doc.get("corr_failures", [])
+                  if str(c.get("correspondence", "")).startswith("footprint:") and isinstance(c.get("case"), dict)})
+    if ids:
+        seed, tier = int(doc.get("seed", 0)), doc.get("tier", "quick")
+        try:
+            h = fpt.start(seed, tier, only=",".join(ids))
+        except Exception as e:  # noqa
+            h = {"error": "%s: %s" % (type(e).__name__, e)}
+        footprint_verdict(res, (h, {"error": "not needed for a replay"}), tier, seed)
 
 
 if __name__ == "__main__":
